@@ -118,7 +118,7 @@ class Explorer:
         self.nontrivial_labels = set()
 
     # ---- solver plumbing
-    def _check(self, *extra, solver=None, allow_unknown=False):
+    def _check(self, *extra, solver=None, allow_unknown=False, lemma_cap=400):
         """CEGAR over the affine-atom abstraction: returns (sat?, variable-model dict or None)"""
         t = time.time()
         sv = solver or self.solver
@@ -126,7 +126,7 @@ class Explorer:
         for e in extra:
             sv.add(e)
         try:
-            for it in range(400):
+            for it in range(lemma_cap):
                 r = sv.check()
                 if r == z3.unknown:
                     if allow_unknown:
@@ -142,12 +142,48 @@ class Explorer:
                 sv.add(res)
                 if solver is None:
                     self.lemmas.append(res)
+            if allow_unknown:
+                return None, None
             raise Inconclusive("CEGAR iteration cap")
         finally:
             sv.pop()
             self.stats["solver_s"] += time.time() - t
 
+    def _check_exact(self, bits):
+        """exact bit-level encoding (no affine-atom abstraction) of  pc AND bits ; used when the abstraction needs too many XOR lemmas
+        (arithmetic-heavy cones: adders are a poor fit for the parity abstraction)"""
+        t = time.time()
+        self.stats["exact_fallbacks"] = self.stats.get("exact_fallbacks", 0) + 1
+        sv = z3.Solver()
+        sv.set("timeout", self.solver_timeout_ms)
+        for p in self.pc:
+            sv.add(p.z3())
+        for b in bits:
+            sv.add(b.z3() if b.__class__ is Bit else z3.BoolVal(bool(b)))
+        try:
+            r = sv.check()
+            if r == z3.unknown:
+                raise Inconclusive("solver unknown (exact encoding): %s" % sv.reason_unknown())
+            if r == z3.unsat:
+                return False, None
+            return True, model_dict(sv.model())
+        finally:
+            self.stats["solver_s"] += time.time() - t
+
+    def _check_hybrid(self, bit):
+        """abstraction first under a short budget, exact encoding as fall-back"""
+        self.solver.set("timeout", min(self.solver_timeout_ms, 10000))
+        try:
+            sat, m = self._check(bit.z3a() if bit.__class__ is Bit else z3.BoolVal(bool(bit)), allow_unknown=True, lemma_cap=120)
+        finally:
+            self.solver.set("timeout", self.solver_timeout_ms)
+        if sat is None:
+            sat, m = self._check_exact([bit])
+        return sat, m
+
     def start_path(self):
+        from sxl import runtime
+        del runtime.GUARDS[:]
         self.pos = 0
         self.pc = []
         self.gauss = Gauss()
@@ -369,7 +405,17 @@ class Explorer:
                 if not any(h[0] == kid for h in self.known_hits):
                     tw = band(bnot(b), pred)
                     if tw.__class__ is Bit or tw:
-                        sat, m = self._check(tw.z3a() if tw.__class__ is Bit else z3.BoolVal(True))
+                        # the twin only serves to REPORT the listed finding as still present; it is not an obligation, so a
+                        # time-out here is not held against the run
+                        keep = self.solver_timeout_ms
+                        self.solver_timeout_ms = min(keep, 8000)
+                        try:
+                            sat, m = self._check_hybrid(tw)
+                        except Inconclusive:
+                            sat, m = None, None
+                            self.stats["twin_timeouts"] = self.stats.get("twin_timeouts", 0) + 1
+                        finally:
+                            self.solver_timeout_ms = keep
                         if sat:
                             self.known_hits.append((kid, label, m))
                 excuse = bor(excuse, pred)
@@ -394,7 +440,10 @@ class Explorer:
                 elif self.nl_pc == 0:
                     sat, m, done = True, g.model(), True
             if not done:
-                sat, m = self._check(z3.Not(b.z3a()))
+                try:
+                    sat, m = self._check_hybrid(bnot(b))
+                except Inconclusive as e:
+                    raise Inconclusive("%s [obligation: %s]" % (e, label[:160]))
         if sat:
             mod = m
             self.violations.append((label, mod))
@@ -404,7 +453,7 @@ class Explorer:
             self.stats["discharged"] += 1
 
     def witness(self):
-        ok, m = self._check()
+        ok, m = self._check_hybrid(1)
         return m if ok else None
 
 
